@@ -433,6 +433,11 @@ def run(program, ctx):
     from . import c07
 
     c07.rule_sqlregion(program, ctx, prop=P, rid="C08.txn")
+    c07.rule_overrides(program, ctx, prop=P, rid="C08.overrides")
+    from . import c10
+
+    # the kind-5 branch decides authorship by scanning the authors index: that index must list an event under its signer only
+    c10.rule_injective(program, ctx, prop=P, rid="C08.index")
     ctx.not_decided += [
         "that the author-index scan yields only that author's keys (scanner byte arithmetic)",
         "completeness: that all referenced older events of the author are removed (beyond the no-all-or-nothing rule)",
